@@ -280,20 +280,25 @@ def _run_unit1(name, prop, canary, mutate, suffix, multiple_errors):
 
 
 def _resolve_span(sp_, path):
-    """Follow macro expansions back to the call site in the assembled file."""
+    """Follow macro expansions back to the outermost call site in the assembled file (a span
+    inside the body of a macro that is itself defined in the assembled file -- the env's log
+    macros, anyhow!, vec! -- is reported at the place the real code invokes the macro)."""
     cur = sp_
     base = os.path.basename(path)
+    best = None
     for _ in range(8):
         if cur is None:
-            return None
+            break
         if os.path.basename(cur.get("file_name", "")) == base:
-            out = dict(cur)
-            out["is_primary"] = sp_.get("is_primary")
-            out["label"] = sp_.get("label")
-            return out
+            best = cur
         ex = cur.get("expansion")
         cur = ex.get("span") if ex else None
-    return None
+    if best is None:
+        return None
+    out = dict(best)
+    out["is_primary"] = sp_.get("is_primary")
+    out["label"] = sp_.get("label")
+    return out
 
 
 def obligation_name(u, f):
